@@ -327,9 +327,16 @@ func (c *Ctx) evalSelector(env *Env, x *ast.SelectorExpr) Val {
 			return c.ndRoot(v)
 		case "shape":
 			// the extents of x as a logical sequence (general-rank interface model)
-			c.declareFun("nd_shape", []Sort{SInt}, arrSort(SInt))
+			// the extents of x (general-rank interface model): the slice that
+			// Shape() returns, an object that exists at entry (ghost id g_shapeid)
+			c.declareFun("ghost.g_shapeid", []Sort{SInt}, SInt)
 			c.declareFun("nd_rank", []Sort{SInt}, SInt)
-			return SeqV{app(arrSort(SInt), "nd_shape", v.Ref), intLit(0), app(SInt, "nd_rank", v.Ref)}
+			id := app(SInt, "ghost.g_shapeid", v.Ref)
+			if c.alloc0.S != "" && c.inQuant == 0 && !c.declared["shapeid-old:"+id.S] {
+				c.declared["shapeid-old:"+id.S] = true
+				c.emit(fmt.Sprintf("(assert (and (< 0 %s) (< %s %s) (>= (nd_rank %s) 0)))", id.S, id.S, c.alloc0.S, v.Ref.S))
+			}
+			return SliceV{id, intLit(0), app(SInt, "nd_rank", v.Ref), SInt, types.Typ[types.Int]}
 		}
 		if strings.HasPrefix(x.Sel.Name, "g_") {
 			// ghost attribute of an object behind an interface: an uninterpreted
